@@ -79,7 +79,42 @@ func (r *FnRun) call(st *State, b *ssa.BasicBlock, idx int, x *ssa.Call) (Val, b
 		// Once.Do(f): f has run (now or earlier). Everything f writes is havocked and,
 		// for package-level map variables that f initialises with make, known non-nil.
 		r.E.Trusted["contract: "+c.Key+" (pthread once: the initialiser has run before Do returns)"] = true
+		// Two cases, told apart by a fresh boolean: the initialiser ran EARLIER (nothing
+		// changes now) or it runs NOW (everything it may write is havocked; a map variable
+		// that only the initialiser ever writes - checked over the package's SSA - was
+		// still nil before).
+		ranBefore := st.declare(r.freshName("once_ran_before"), BoolSort())
+		if len(args) >= 2 {
+			// the maps the initialiser creates: their contents must exist as heap
+			// components BEFORE the call, so that the unchanged case relates them
+			if fr, ok := args[1].(*FuncRef); ok {
+				for _, b := range fr.Fn.Blocks {
+					for _, ins := range b.Instrs {
+						if mk, ok := ins.(*ssa.MakeMap); ok {
+							ma := r.mapArrsOf(mk.Type())
+							r.memArrS(st, ma.val, ArraySort(ma.ks, ma.vs))
+							r.memArrS(st, ma.has, ArraySort(ma.ks, BoolSort()))
+						}
+					}
+				}
+			}
+		}
+		olds := map[string]Term{}
+		for _, m := range allArrays(st) {
+			olds[m] = r.arr(st, m)
+		}
+		preSt := st.clone()
 		r.havocAll(st)
+		for _, m := range allArrays(st) {
+			old, ok := olds[m]
+			if !ok {
+				continue
+			}
+			nv := st.mem[m]
+			mixed := st.declare(r.freshName(m+"_once"), nv.Sort)
+			st.log = append(st.log, LogItem{Kind: LAssume, T: Ident(mixed, Ite(ranBefore, old, nv)), Note: "def"})
+			st.mem[m] = mixed
+		}
 		if len(args) >= 2 {
 			if fr, ok := args[1].(*FuncRef); ok {
 				for _, b := range fr.Fn.Blocks {
@@ -90,6 +125,11 @@ func (r *FnRun) call(st *State, b *ssa.BasicBlock, idx int, x *ssa.Call) (Val, b
 									ga := r.globalAddr(st, g).(Term)
 									mp := r.loadAt(st, ga, sto.Val.Type()).(Term)
 									st.assume(Not(Eq(mp, BVInt(0, PtrW, false))), "initialised by "+fr.Fn.Name())
+									if why := globalWrittenOnlyIn(fr.Fn.Pkg, g, fr.Fn); why == "" {
+										before := r.loadAt(preSt, ga, sto.Val.Type()).(Term)
+										st.assume(Or(ranBefore, Eq(before, BVInt(0, PtrW, false))), "only "+fr.Fn.Name()+" writes "+g.Name()+": nil until it has run")
+										r.E.Notes["package-level map "+g.Name()+" is written only by "+fr.Fn.Name()+" (checked over the package's SSA on every run): nil before the Once initialiser has run"] = true
+									}
 								}
 							}
 						}
@@ -198,6 +238,15 @@ func (r *FnRun) builtin(st *State, x *ssa.Call, bi *ssa.Builtin, args []Val) Val
 		}
 	case "complex":
 		return &StructVal{N: []string{"re", "im"}, F: []Val{args[0], args[1]}}
+	}
+	if bi.Name() == "delete" {
+		// delete(m, k): the key is no longer present (no-op on a nil map: the stored
+		// presence bit of the nil address is never read, lookups test m != nil first)
+		ma := r.mapArrsOf(x.Call.Args[0].Type())
+		m := args[0].(Term)
+		k := args[1].(Term)
+		r.mapStore(st, ma, m, Term{k.S, ma.ks}, zeroOfSort(ma.vs), False)
+		return nil
 	}
 	panic(unsupported("builtin " + bi.Name()))
 }
